@@ -258,6 +258,21 @@ Definition ll_norm (y : str) : str :=
 (* the values the lossless reader can hand out: canonical, and nothing for ll_norm to take off *)
 Definition ll_dom (x : str) : bool := canon_value x && str_eqb (ll_norm x) x.
 
+(* what the lossy reader can hand out and its printer gives back unchanged: like canonical values,
+   but a continuation line may be EMPTY (a blank or comment-only continuation line in the text) as
+   long as it is not the last one - a value ending in LF does not survive printing *)
+Definition lcanon_cont (l : str) : bool :=
+  no_eol l && match l with c :: _ => negb (is_indent c) && negb (c =? 35)%N | [] => true end.
+Definition last_nonempty (rest : list str) : bool := match rev rest with [] :: _ => false | _ => true end.
+Definition lcanon_value (v : str) : bool :=
+  match split_lf v with
+  | [] => false
+  | l1 :: rest => canon_first l1 && forallb lcanon_cont rest && last_nonempty rest
+  end.
+Definition lcanon_field (f : str * str) : bool := valid_name (fst f) && lcanon_value (snd f).
+Definition lcanon_para (p : list (str * str)) : bool := match p with [] => false | _ => forallb lcanon_field p end.
+Definition ends_lf (v : str) : bool := match rev v with c :: _ => (c =? 10)%N | [] => false end.
+
 (* codec pairs whose printed form of a READ value is canonical and reads back as the same value
    (the stability law, weaker than the round trip of C16: only values in the range of the
    deserialiser matter); external codecs pair with themselves - that is the assumed law *)
